@@ -13,7 +13,7 @@ from pgverif.gen import signatures as S
 TIERS = {
     'quick': dict(shards=8, cases=120, calls=20, family_every=2, sibling_calls=6,
                   histories=2, steps=6, decorated_calls=9, nested=3, annotated_calls=6, special_calls=4),
-    'thorough': dict(shards=16, cases=1500, calls=40, family_every=3, sibling_calls=6,
+    'thorough': dict(shards=16, cases=500, calls=40, family_every=3, sibling_calls=6,
                      histories=2, steps=6, decorated_calls=9, nested=3, annotated_calls=6,
                      special_calls=4, timeout_s=3000),
 }
